@@ -591,6 +591,44 @@ pub fn check_whitespace_twin(case: &Case, src: Option<&str>, cx: &mut Ctx) -> Op
     })
 }
 
+/// Characters and fragments a source text may legitimately start or end with (or that a file
+/// read may leave there): whatever the tokenizer makes of them, both string-level entries get
+/// the same text and must make the same of it.
+pub const SOURCE_DECORATIONS: [&str; 12] = [
+    "\u{feff}", "\u{a0}", "\u{200b}", "\t", "\r\n", "\u{2028}", "\u{3000}", " ", "\n", "\u{0}", "\u{c}", "\u{85}",
+];
+
+/// C11, fault-free, string entries only, reference-free: the source with a decoration in front
+/// of it or behind it (byte order mark, non-breaking / zero-width / ideographic space, line
+/// separators, control characters) evaluated read-only and mutably on fresh contexts; the two
+/// outcomes must agree (no assignment operators in the undecorated tree).
+pub fn check_decorated_source(case: &Case, tree: &Node, src: Option<&str>, cx: &mut Ctx) -> Option<Finding> {
+    let src = src?;
+    if tree_has_assignment(tree) {
+        return None;
+    }
+    // the decoration is chosen by the text itself (no PRNG: minimisation stays a pure function)
+    let h = src.bytes().fold(0usize, |a, b| a.wrapping_mul(31).wrapping_add(b as usize));
+    let deco = SOURCE_DECORATIONS[h % SOURCE_DECORATIONS.len()];
+    let decorated = if (h / 16) % 3 == 0 { format!("{}{}", src, deco) } else { format!("{}{}", deco, src) };
+    let kind = case.kind;
+    // the trees are only a fallback for entries that are not string-level; Entry::Str parses `decorated`
+    let o_imm = run_real(tree, Some(&decorated), &case.setup, kind, Path::Imm, Entry::Str, case.typed, &[]);
+    let o_mut = run_real(tree, Some(&decorated), &case.setup, kind, Path::Mut, Entry::Str, case.typed, &[]);
+    cx.stats.add("evaluations_real", 2);
+    cx.stats.inc("c11.decorated_source_checked");
+    diff_class(&o_mut, &o_imm, false).map(|class| {
+        finding(
+            Prop::C11,
+            class,
+            "string-entries-disagree-on-decorated-source",
+            &[],
+            &o_mut,
+            &o_imm,
+        )
+    })
+}
+
 /// Which seam calls of a fault-free history can be failed for this context kind.
 pub fn fault_positions(log: &[Ev]) -> Vec<usize> {
     (0..log.len()).collect()
@@ -622,11 +660,29 @@ pub fn check_case(
     if base.finding.is_some() {
         return base.finding;
     }
+    // the other seven entry points of the same tree / source, fault-free (typed entries are views
+    // of the one evaluator; which of them shows a difference depends on the result's type)
+    for t in 0..crate::env::TYPED_ENTRIES.len() {
+        if t == case.typed {
+            continue;
+        }
+        let mut other = case.clone();
+        other.typed = t;
+        let r = check_plan(&other, &tree, src_ref, &[], prop, cx);
+        cx.stats.inc("plans.fault_free_other_entry");
+        if let Some(mut f) = r.finding {
+            f.actual = format!("[entry point `{}`] {}", crate::env::TYPED_ENTRIES[t], f.actual);
+            return Some(f);
+        }
+    }
     if prop == Prop::C11 {
         if let Some(f) = check_witness_clone(case, &tree, cx) {
             return Some(f);
         }
         if let Some(f) = check_whitespace_twin(case, src_ref, cx) {
+            return Some(f);
+        }
+        if let Some(f) = check_decorated_source(case, &tree, src_ref, cx) {
             return Some(f);
         }
     }
